@@ -1,12 +1,14 @@
 /- Line-protocol driver: one request per line, one answer per line.  Imports only the
    import-free models and generated definitions, so it is compiled to a native executable. -/
 import DropletsVerif.Driver.C12
+import DropletsVerif.Driver.C11
 
 open DV.Drv
 
 def dispatch (line : String) : String :=
   match (line.splitOn " ").filter (· ≠ "") with
   | "c12" :: args => handleC12 args
+  | "c11" :: args => handleC11 args
   | _ => "bad-op"
 
 partial def loop (h : IO.FS.Stream) (out : IO.FS.Stream) : IO Unit := do
